@@ -33,6 +33,9 @@ for d in "$HERE"/sensitivity/$ID/*.diff; do
   if [ "$expect" = quiet ] && [ $code -eq 0 ]; then verdict=ok; fi
   # .either.diff: a change whose verdict legitimately depends on what the batch happens to reach
   if [ "$expect" = either ] && { [ $code -eq 0 ] || [ $code -eq 1 ]; }; then verdict=ok; fi
+  # .limit.diff: correct code that is beyond what the rewrite step can instrument (documented in
+  # DESIGN section 9): it must never be reported as a violation; "no verdict" (exit 2) is accepted
+  if [ "$expect" = limit ] && { [ $code -eq 0 ] || [ $code -eq 2 ]; }; then verdict=ok; fi
   [ $verdict = ok ] || fail=1
   printf "%-34s expect=%-6s exit=%d %-28s %s %5.1fs %s\n" "$name" "$expect" "$code" "$inv" "$tests" "$(echo "$t1 - $t0" | bc)" "$verdict"
   if [ $verdict != ok ] || [ "${SENS_VERBOSE:-0}" = 1 ]; then echo "$out" | tail -15 | sed 's/^/    /'; fi
